@@ -535,7 +535,9 @@ func (pkg *Package) collectConditionalIncludes(mklines *MkLines) {
 		if mkline.IsInclude() {
 			mkline.SetConditionalVars(mklines.indentation.Varnames())
 
-			includedFile := pkg.Rel(mkline.IncludedFileFull())
+			// Resolve ${.CURDIR} and friends in the same way as when loading the file.
+			resolved := mkline.ResolveExprsInRelPath(mkline.IncludedFile(), pkg)
+			includedFile := pkg.Rel(mkline.Filename().Dir().JoinNoClean(resolved).CleanPath())
 			if mklines.indentation.IsConditional() {
 				pkg.conditionalIncludes[includedFile] = mkline
 			} else {
